@@ -33,7 +33,7 @@ import (
 )
 
 func TestMain(m *testing.M) {
-	vstat.Rule("Raw TCP backend script: any status 200-999, 0-8 end-to-end headers (repeated names), body 0..1 MiB with Content-Length or chunked framing with generated chunk sizes and flush points; fault = one of {connection refused, close before any byte, RST before any byte, partial head then close, garbage head, status code below 100, full head + partial body then close/RST (Content-Length and chunked), never answer (transport ResponseHeaderTimeout), client cancels while the backend holds}. Proxy = StateListener(forward.New(..)), driven in-process (with the server context key present so that an aborted body copy panics as under a real server) and behind httptest.Server with a raw client. The fault x method table is enumerated completely in every run on top of the generated cases. Oracle: no fault => client status, end-to-end header values and body bytes equal the script's; refused/closed/reset before any byte => 502; header timeout => 504; cancellation => 499; partial/garbage head => 500 or 502; abort during body copy => truncated exchange, proxy survives and serves the next request; in all cases the listener saw exactly [connected, disconnected] with the same URL and the exchange terminated. Non-trivial: fault after the response head, or a chunked body > 32 KiB with >= 2 flushes, or cancellation. Later additions: header values with tab, UTF-8 and Latin-1 bytes; 0-2 '103 Early Hints' responses before the final one; the forwarder behind trace or a never-tripping breaker (response-writer wrapper in between); 17-40 overlapping exchanges through one forwarder; for the RST-during-body fault the proxy's own 502/500 page is accepted (a reset destroys unread bytes of the head).")
+	vstat.Rule("Raw TCP backend script: any status 200-999, 0-8 end-to-end headers (repeated names), body 0..1 MiB with Content-Length or chunked framing with generated chunk sizes and flush points; fault = one of {connection refused, close before any byte, RST before any byte, partial head then close, garbage head, status code below 100, full head + partial body then close/RST (Content-Length and chunked), never answer (transport ResponseHeaderTimeout), client cancels while the backend holds}. Proxy = StateListener(forward.New(..)), driven in-process (with the server context key present so that an aborted body copy panics as under a real server) and behind httptest.Server with a raw client. The fault x method table is enumerated completely in every run on top of the generated cases. Oracle: no fault => client status, end-to-end header values and body bytes equal the script's; refused/closed/reset before any byte => 502; header timeout => 504; cancellation => 499; partial/garbage head => 500 or 502; abort during body copy => truncated exchange, proxy survives and serves the next request; in all cases the listener saw exactly [connected, disconnected] with the same URL and the exchange terminated. Non-trivial: fault after the response head, or a chunked body > 32 KiB with >= 2 flushes, or cancellation. Later additions: header values with tab, UTF-8 and Latin-1 bytes; 0-2 '103 Early Hints' responses before the final one; the forwarder behind trace or a never-tripping breaker (response-writer wrapper in between); 17-40 overlapping exchanges through one forwarder; for the RST-during-body fault the proxy's own 502/500 page is accepted (a reset destroys unread bytes of the head). TestC16_Upgrade: backend answers 101 + greeting and holds; forwarder bare or behind trace/cbreaker/rebalancer/statelistener on a recording writer that can be hijacked; the hijacked connection must start with the backend's 101 head (X-Backend: yes) followed by the greeting; zero WriteHeader calls, flushes and body bytes on the ordinary path.")
 	log.SetOutput(io.Discard) // httputil.ReverseProxy logs every aborted copy
 	vstat.Main(m.Run)
 }
@@ -1070,5 +1070,101 @@ func TestC16_StreamHead(t *testing.T) {
 			t.Fatalf("the exchange did not end after the backend finished the stream")
 		}
 		vstat.Case(fmt.Sprintf("stream|%d|%s|%s|%d", status, ctype, behind, len(first)), true, []string{"streamed-head-then-quiet"}, map[string]any{"status": status, "content_type": ctype, "behind": behind})
+	})
+}
+
+// TestC16_Upgrade: a protocol switch. The backend answers "101 Switching Protocols" and starts
+// talking the new protocol; the forwarder takes the client connection over and relays the
+// backend's head and bytes on it. Nothing goes out through the ordinary response path - also
+// when the forwarder sits behind a middleware that wraps the response writer.
+func TestC16_Upgrade(t *testing.T) {
+	rapid.Check(t, func(t *rapid.T) {
+		be, err := backend()
+		if err != nil {
+			t.Fatalf("%v", err)
+		}
+		defer be.Release()
+		greeting := rapid.StringMatching(`[a-z]{1,30}`).Draw(t, "greeting")
+		head := "HTTP/1.1 101 Switching Protocols\r\nConnection: Upgrade\r\nUpgrade: verifproto\r\nX-Backend: yes\r\n\r\n"
+		be.SetScript(func(*sim.Captured) []sim.Step {
+			return []sim.Step{{Write: []byte(head + greeting)}, {Hold: true}, {Close: true}}
+		})
+		tr := &http.Transport{DisableKeepAlives: true}
+		defer tr.CloseIdleConnections()
+		fwd := forward.New(false)
+		fwd.Transport = tr
+		var h http.Handler = fwd
+		behind := rapid.SampledFrom([]string{"", "trace", "cbreaker", "rebalancer", "statelistener"}).Draw(t, "behind")
+		target, _ := url.Parse("http://" + be.Addr())
+		switch behind {
+		case "trace":
+			h, err = trace.New(h, io.Discard)
+		case "cbreaker":
+			h, err = cbreaker.New(h, "NetworkErrorRatio() > 2.0")
+		case "statelistener":
+			h = forward.NewStateListener(h, func(*url.URL, int) {})
+		case "rebalancer":
+			rr, e := roundrobin.New(h)
+			if e != nil {
+				t.Fatalf("%v", e)
+			}
+			rb, e := roundrobin.NewRebalancer(rr)
+			if e != nil {
+				t.Fatalf("%v", e)
+			}
+			err = rb.UpsertServer(target)
+			h = rb
+		}
+		if err != nil {
+			t.Fatalf("building %s: %v", behind, err)
+		}
+		rec := sim.NewRecorder()
+		req := httptest.NewRequest("GET", "http://front.example/socket", nil)
+		req.URL = target
+		req.Header.Set("Connection", "Upgrade")
+		req.Header.Set("Upgrade", "verifproto")
+		done := make(chan any, 1)
+		go func() {
+			defer func() { done <- recover() }()
+			h.ServeHTTP(rec, req)
+		}()
+		deadline := time.Now().Add(10 * time.Second)
+		for rec.Peer() == nil {
+			select {
+			case p := <-done:
+				t.Fatalf("protocol switch behind %q: the exchange ended (panic: %v) with status %d and %d body bytes through the ordinary response path; the connection was never handed over", behind, p, rec.Status(), len(rec.Body()))
+			default:
+			}
+			if time.Now().After(deadline) {
+				t.Fatalf("protocol switch behind %q: the client connection was not taken over within 10 s (status seen %d)", behind, rec.Status())
+			}
+			time.Sleep(200 * time.Microsecond)
+		}
+		peer := rec.Peer()
+		_ = peer.SetReadDeadline(time.Now().Add(10 * time.Second))
+		want := "HTTP/1.1 101 Switching Protocols\r\n"
+		var got []byte
+		buf := make([]byte, 4096)
+		for !(bytes.Contains(got, []byte("\r\n\r\n")) && bytes.HasSuffix(got, []byte(greeting))) {
+			n, rerr := peer.Read(buf)
+			got = append(got, buf[:n]...)
+			if rerr != nil {
+				break
+			}
+		}
+		if !bytes.HasPrefix(got, []byte(want)) || !bytes.Contains(got, []byte("X-Backend: yes\r\n")) || !bytes.HasSuffix(got, []byte(greeting)) {
+			t.Fatalf("protocol switch behind %q: the taken-over connection carried %q; want the backend's 101 head (with X-Backend: yes) followed by %q", behind, got, greeting)
+		}
+		if n, f, b := rec.HeaderCallCount(), rec.FlushCount(), len(rec.Body()); n != 0 || f != 0 || b != 0 {
+			t.Fatalf("protocol switch behind %q: before the connection was handed over something went out through the ordinary response path (%d WriteHeader calls, status %d, %d flushes, %d body bytes): the client sees that first, not the backend's 101", behind, n, rec.Status(), f, b)
+		}
+		peer.Close()
+		be.Release()
+		select {
+		case <-done:
+		case <-time.After(20 * time.Second):
+			t.Fatalf("protocol switch behind %q: the exchange did not end after both sides went away", behind)
+		}
+		vstat.Case(fmt.Sprintf("upgrade|%s|%d", behind, len(greeting)), true, []string{"protocol-switch"}, map[string]any{"behind": behind, "greeting_bytes": len(greeting)})
 	})
 }
